@@ -117,6 +117,12 @@ class ConstructPipeline(RewritePattern):
                 break
             assert next_op is not None
 
+        # a valid pipeline consists of the stages only: any other op behind the
+        # last stage would stay in the loop body and run only for the iterations
+        # of the shifted steady-state loop
+        if not isinstance(next_op, scf.YieldOp):
+            return
+
         # a valid pipeline has at least two stages
         if len(stages) < 2:
             return
